@@ -1,6 +1,7 @@
 use super::ExtendedType;
 use crate::collections::HashMap;
 use crate::collections::HashSet;
+use crate::collections::IndexSet;
 use crate::parser::FileId;
 use crate::schema::ScalarType;
 use crate::validation::diagnostics::DiagnosticData;
@@ -103,7 +104,8 @@ pub(crate) fn validate_type_system_name(
 pub(crate) struct BuiltInScalars {
     all: &'static HashMap<Name, Node<ScalarType>>,
     used_and_defined: HashSet<Name>,
-    used_and_undefined: HashSet<Name>,
+    /// In the order they are first referenced: they are inserted into `Schema::types` in this order
+    used_and_undefined: IndexSet<Name>,
 }
 
 impl BuiltInScalars {
@@ -126,7 +128,7 @@ impl BuiltInScalars {
         Self {
             all,
             used_and_defined: HashSet::default(),
-            used_and_undefined: HashSet::default(),
+            used_and_undefined: IndexSet::default(),
         }
     }
 
